@@ -222,6 +222,10 @@ func (p *FloatingIPPlugin) syncPodIP(pod *corev1.Pod) error {
 		return nil
 	}
 	defer p.lockPod(pod.Name, pod.Namespace)()
+	if cur, err := p.PodLister.Pods(pod.Namespace).Get(pod.Name); err == nil && cur.UID != pod.UID {
+		// a stale update event, the pod has been replaced by a new pod with the same name
+		return nil
+	}
 	keyObj, err := util.FormatKey(pod)
 	if err != nil {
 		glog.V(5).Infof("sync pod %s/%s ip formatKey with error %v", pod.Namespace, pod.Name, err)
